@@ -264,6 +264,18 @@ mod verif_replay_c11_key {
         assert_ne!(base.to_key_string(), other_port.to_key_string(), "denials on two ports of one address share one failed-authorization entry");
         assert_ne!(base.to_key_string(), other_ip.to_key_string(), "denials on two addresses share one failed-authorization entry");
     }
+    #[test]
+    fn c11_callers_differing_late_have_different_summary_keys() {
+        // a key that measures only a prefix of a field (truncation to a "reasonable" size) merges callers whose long user names,
+        // paths or command lines (java -cp <long classpath> MainA / MainB) differ only near the end
+        for n in [16usize, 64, 128, 255, 256, 257, 512, 1024, 4096, 70000] {
+            let pre = "x".repeat(n);
+            let (a, b) = (format!("{}A", pre), format!("{}B", pre));
+            assert_ne!(summary("u", "/p", &a).to_key_string(), summary("u", "/p", &b).to_key_string(), "command lines differing after {} bytes share one entry", n);
+            assert_ne!(summary("u", &a, "c").to_key_string(), summary("u", &b, "c").to_key_string(), "process paths differing after {} bytes share one entry", n);
+            assert_ne!(summary(&a, "/p", "c").to_key_string(), summary(&b, "/p", "c").to_key_string(), "user names differing after {} bytes share one entry", n);
+        }
+    }
 }
 '''
 
@@ -330,11 +342,12 @@ def check_summary_key(rep, ctx):
         import replay as rp
         code = KEY_REPLAY % {"u1": '"Verif"', "p1": '"/usr/bin/Tool"', "c1": '"Tool -V"', "u2": '"verif"', "p2": '"/usr/bin/tool"', "c2": '"tool -v"'}
         res_, _o = rp.run_rust_tests("azure-proxy-agent", [("proxy_agent/src/proxy/proxy_summary.rs", code)], "verif_replay_c11_key", no_args=True)
-        sts = [(res_ or {}).get("c11_different_callers_have_different_summary_keys"), (res_ or {}).get("c11_different_destinations_have_different_summary_keys")]
+        sts = [(res_ or {}).get("c11_different_callers_have_different_summary_keys"), (res_ or {}).get("c11_different_destinations_have_different_summary_keys"),
+               (res_ or {}).get("c11_callers_differing_late_have_different_summary_keys")]
         st = "FAILED" if "FAILED" in sts else sts[0]
         q = rep.queries[-1]
         q.replay = save_replay("C11", "summary_key_case.rs", "// append to proxy_agent/src/proxy/proxy_summary.rs; run the whole azure-proxy-agent test binary\n" + code)
-        q.detail += " || native replay (callers differing only in letter case): %s" % st
+        q.detail += " || native replay (callers differing only in letter case, or only after a long common prefix; destinations differing in port or address): %s %s" % (st, sts)
         if st == "FAILED":
             q.reproduced = True
             rep.traces_validated += 1
